@@ -569,8 +569,8 @@ type ReplayFile struct {
 	// goroutines of its own, which the scheduler does not own): the replay
 	// reproduces the violation only with the stated frequency.
 	Statistical string `json:"statistical_replay,omitempty"`
-	// HistoryFrom, if set: execute runs HistoryFrom..run_index in one process.
-	HistoryFrom *int64 `json:"history_from_run,omitempty"`
+	// History, if set: execute these run ranges [from, to) in order in one process; the last one ends with run_index.
+	History [][2]int64 `json:"history_run_ranges,omitempty"`
 	// ReplayWholeRun: ignore payload_hex and regenerate the run from run_seed.
 	ReplayWholeRun bool `json:"replay_whole_run,omitempty"`
 }
@@ -642,27 +642,49 @@ func reproduces(e Engine, rp *replayer, c *violCase, tr vs.Trace, strict bool) (
 	return false, nil, nil, ""
 }
 
-// reproducesWithHistory executes the runs from..c.idx in ONE fresh worker
-// process (as the batch originally did) and reports whether run c.idx shows
-// the violation: for failures that depend on what the same process executed
-// before (state the library carries from call to call).
-func reproducesWithHistory(e Engine, opt *Options, c *violCase, from int64) (bool, interface{}, string) {
-	rp := &replayer{opt: opt, fresh: true}
-	resp, _, _, _ := rp.do(&Request{Kind: "batch", Tier: opt.Tier, BatchSeed: batchSeedOf(opt, c), Start: from, End: c.idx + 1})
-	if resp == nil {
-		return false, nil, ""
-	}
-	for _, f := range resp.Found {
-		if f.Idx != c.idx {
+// reproducesWithHistory executes, in ONE fresh worker process, the same runs
+// in the same order as the worker that found the violation had executed up to
+// and including run c.idx, and reports whether run c.idx shows the violation:
+// for failures that depend on what the same process executed before (state the
+// library carries from call to call).
+func reproducesWithHistory(e Engine, opt *Options, c *violCase, ranges [][2]int64) (bool, interface{}, string) {
+	rp := &replayer{opt: opt}
+	defer rp.close()
+	for i, r := range ranges {
+		resp, _, _, _ := rp.do(&Request{Kind: "batch", Tier: opt.Tier, BatchSeed: batchSeedOf(opt, c), Start: r[0], End: r[1]})
+		if resp == nil {
+			return false, nil, ""
+		}
+		if i < len(ranges)-1 {
 			continue
 		}
-		for _, v := range f.V {
-			if v.Sig == c.v.Sig {
-				return true, f.Sample, v.Detail
+		for _, f := range resp.Found {
+			if f.Idx != c.idx {
+				continue
+			}
+			for _, v := range f.V {
+				if v.Sig == c.v.Sig {
+					return true, f.Sample, v.Detail
+				}
 			}
 		}
 	}
 	return false, nil, ""
+}
+
+// historyOf lists the run ranges the worker that executed run idx had
+// executed before it (chunks are dealt round-robin to workers).
+func historyOf(opt *Options, idx int64) [][2]int64 {
+	if opt.chunk <= 0 {
+		return nil
+	}
+	c := idx / opt.chunk
+	W := int64(opt.Workers)
+	var out [][2]int64
+	for k := c % W; k < c; k += W {
+		out = append(out, [2]int64{k * opt.chunk, (k + 1) * opt.chunk})
+	}
+	return append(out, [2]int64{c * opt.chunk, idx + 1})
 }
 
 func batchSeedOf(opt *Options, c *violCase) uint64 {
@@ -726,24 +748,34 @@ func processViolation(e Engine, opt *Options, c *violCase) (string, string) {
 	}
 	if !ok && !c.death && opt.chunk > 0 {
 		// not on its own: with the runs the same worker executed before it?
-		from := (c.idx / opt.chunk) * opt.chunk
-		if from < c.idx {
+		// (first only the chunk it belongs to, then everything that worker did)
+		full := historyOf(opt, c.idx)
+		for _, hist := range [][][2]int64{full[len(full)-1:], full} {
+			n := int64(0)
+			for _, r := range hist {
+				n += r[1] - r[0]
+			}
+			if n <= 1 {
+				continue
+			}
 			hits := 0
 			var smp interface{}
 			var det string
 			for i := 0; i < 2; i++ {
-				if ok2, s2, d2 := reproducesWithHistory(e, opt, c, from); ok2 {
+				if ok2, s2, d2 := reproducesWithHistory(e, opt, c, hist); ok2 {
 					hits++
 					smp, det = s2, d2
+				} else {
+					break
 				}
 			}
 			if hits == 2 {
-				rf.HistoryFrom = &from
+				rf.History = hist
 				rf.Scenario = smp
 				if det != "" {
 					rf.Violation.Detail = det
 				}
-				rf.Note = fmt.Sprintf("history-dependent: run %d alone does not show the violation in a fresh process; executing runs %d..%d in one fresh process does (twice): the library carries state from earlier calls", c.idx, from, c.idx)
+				rf.Note = fmt.Sprintf("history-dependent: run %d alone does not show the violation in a fresh process; executing the %d runs its worker had executed up to it, in one fresh process, does (twice): the library carries state from earlier calls", c.idx, n)
 				return writeReplay(e, opt, c, rf)
 			}
 		}
@@ -950,10 +982,10 @@ func replayMain(e Engine, args []string) int {
 	}
 	opt.Tier = rf.Tier
 	c := &violCase{idx: rf.Idx, seed: rf.Seed, v: rf.Violation, death: rf.Death, batchSeed: rf.BatchSeed}
-	if rf.HistoryFrom != nil {
+	if rf.History != nil {
 		opt.Seed = rf.BatchSeed
-		if ok, _, detail := reproducesWithHistory(e, &opt, c, *rf.HistoryFrom); ok {
-			fmt.Printf("replayed (runs %d..%d in one process): %s\n%s\n", *rf.HistoryFrom, rf.Idx, rf.Violation.Sig, tail(detail, 4000))
+		if ok, _, detail := reproducesWithHistory(e, &opt, c, rf.History); ok {
+			fmt.Printf("replayed (run ranges %v in one process): %s\n%s\n", rf.History, rf.Violation.Sig, tail(detail, 4000))
 			fmt.Printf("VIOLATION property=%s replay=%s\n", e.ID(), file)
 			return 1
 		}
